@@ -32,7 +32,7 @@ EXPLANATION = (
     "the functions reachable from the carquet_writer_* entry points (call graph, dispatch slots resolved) "
     "every mutable static local is overwritten before it is read in each call, every mutable file-scope "
     "variable used is thread-local or a lazily built call-independent table, and nothing consults the "
-    "clock, the process or a random source. (9) every LogicalType member is written under the specification's union field id and its parameters parse back (write_logical_type executed per member and per parameter combination; the root probe cannot reach a union). Decides these clauses, not acceptance by an independent reader "
+    "clock, the process or a random source. (9) every LogicalType member is written under the specification's union field id and its parameters parse back (write_logical_type executed per member and per parameter combination; the root probe cannot reach a union). (10) carquet_column_writer_create, executed for every physical type x codec with the page-writer constructor hooked, hands on exactly the type, encoding and codec it was given, and carquet_page_writer_create stores them: the pages of a chunk are produced with the codec the row-group writer records in ColumnMetaData.codec, for every column type. Decides these clauses, not acceptance by an independent reader "
     "nor byte equality of two runs (allocator addresses and library codecs are outside the rule).")
 
 PT = "src/thrift/parquet_types.c"
@@ -150,6 +150,8 @@ def _run(ctx):
     ctx.clause("C05.4 offsets accumulate from what was written; close order")
     ctx.clause("C05.5 duplicated struct definitions and extern prototypes agree")
     ctx.clause("C05.6 page bytes of a non-UNCOMPRESSED chunk are always the codec's output")
+    ctx.clause("C05.10 the codec and encoding a column's pages are produced with are the ones its writer was created with - the value the chunk metadata records (every type x codec)")
+    ctx.floor("C05 type x codec combinations through the writer constructors", _codec_passthrough(ctx), 60)
     ctx.clause("C05.7 no state is carried from one writer call to the next (static locals, globals, clock/entropy)")
     from ..rules import hidden
     from .. import callgraph
@@ -509,3 +511,68 @@ def run(ctx):
     lt_obs = [o for o in ctx.obs if o.key.startswith(("logical-type|", "logical-params|"))]
     logical_ok = lp_ok and bool(lt_obs) and all(o.status == report.DISCHARGED for o in lt_obs)
     ctx.count("extraction_gaps_settled_by_probe", thriftrt.settle_extraction(ctx, decided, logical_ok=logical_ok))
+
+
+def _codec_passthrough(ctx):
+    """The codec (and encoding) a column's pages are produced with is the one the column writer was created with - the
+    same value the row-group writer records as ColumnMetaData.codec. carquet_column_writer_create is executed for every
+    physical type x codec with carquet_page_writer_create hooked (what it receives must be what came in), and
+    carquet_page_writer_create for every type x codec (what it stores must be what it received)."""
+    from ..rules import sem
+    from ..rules.skeleton import Ptr
+    P = ctx.P
+    n = 0
+    phys = P.enum("carquet_physical_type")
+    codecs = P.enum("carquet_compression")
+    cw = P.fn_opt("carquet_column_writer_create", "src/writer/column_writer.c")
+    pw = P.fn_opt("carquet_page_writer_create", "src/writer/page_writer.c")
+    if cw is None or pw is None:
+        raise AnalysisBroken("anchor functions carquet_column_writer_create / carquet_page_writer_create not found")
+    k = [0]
+
+    def alloc(ev, a, it):
+        k[0] += 1
+        return Ptr("obj%d" % k[0], 0, 1)
+    base_hooks = {"calloc": alloc, "malloc": alloc, "free": lambda ev, a, it: None, "carquet_buffer_init": lambda ev, a, it: None,
+                  "carquet_buffer_init_capacity": lambda ev, a, it: 0}
+    # (a) column writer -> page writer
+    key = "codec-passthrough|src/writer/column_writer.c:carquet_column_writer_create"
+    what = "carquet_column_writer_create creates its page writer with the type, encoding and codec it was given (every physical type x codec)"
+    try:
+        bad, done = None, 0
+        for tn, tv in sorted(phys.items(), key=lambda x: x[1]):
+            for cn, cv in sorted(codecs.items(), key=lambda x: x[1]):
+                seen = []
+
+                def pwc(ev, a, it, seen=seen):
+                    seen.append(tuple(a[:3]))
+                    return Ptr("pwobj", 0, 1)
+                ret, ev, heap = sem.run(P, cw, [tv, 8, cv, 1, 0, 12, 4096], heap0={}, hooks=dict(base_hooks, carquet_page_writer_create=pwc),
+                                        single=True, max_forks=8, budget=50000, inline_depth=2)
+                done += 1
+                if bad is None and seen != [(tv, 8, cv)]:
+                    bad = "%s with %s: the page writer is created with (type, encoding, codec) = %s" % (tn.replace("CARQUET_PHYSICAL_", ""), cn.replace("CARQUET_COMPRESSION_", ""), seen)
+        n += done
+        ctx.ob("R5.agree", key, P.where(cw.body), what + " (%d combinations)" % done, bad is None, bad or "")
+    except (sem.Inconclusive, KeyError) as ex:
+        ctx.inconclusive("R5.agree", key, P.where(cw.body), what, "%s: %s" % (type(ex).__name__, ex))
+    # (b) page writer stores what it received
+    key = "codec-passthrough|src/writer/page_writer.c:carquet_page_writer_create"
+    what = "carquet_page_writer_create stores the type, encoding and codec it was given (every physical type x codec)"
+    try:
+        wo = sem.field_offsets(P, "carquet_page_writer")
+        bad, done = None, 0
+        for tn, tv in sorted(phys.items(), key=lambda x: x[1]):
+            for cn, cv in sorted(codecs.items(), key=lambda x: x[1]):
+                ret, ev, heap = sem.run(P, pw, [tv, 8, cv, 1, 0, 12], heap0={}, hooks=base_hooks, single=True, max_forks=8, budget=50000, inline_depth=2)
+                done += 1
+                if not isinstance(ret, Ptr):
+                    raise sem.Inconclusive("returns %r" % (ret,))
+                got = tuple(heap.get((ret.base, ret.off + wo[m])) for m in ("type", "encoding", "compression"))
+                if bad is None and got != (tv, 8, cv):
+                    bad = "%s with %s: the page writer holds (type, encoding, codec) = %s" % (tn.replace("CARQUET_PHYSICAL_", ""), cn.replace("CARQUET_COMPRESSION_", ""), got)
+        n += done
+        ctx.ob("R5.agree", key, P.where(pw.body), what + " (%d combinations)" % done, bad is None, bad or "")
+    except (sem.Inconclusive, KeyError) as ex:
+        ctx.inconclusive("R5.agree", key, P.where(pw.body), what, "%s: %s" % (type(ex).__name__, ex))
+    return n
